@@ -578,7 +578,7 @@ class SramInst(_InstBase):
     Every range (addresses, page values, populated words) comes from the constructor parameters."""
 
     def __init__(self, name, width=8, depth=4, bw=8, paging=0x800, address=1, aw=14, read_only=False, init=None,
-                 data_values=(0xA5A5A5A5, 0x5A5A5A5A), nadr=None, via="explicit"):
+                 data_values=(0xA5A5A5A5, 0x5A5A5A5A), nadr=None, via="explicit", script=False):
         from migen import Memory
         self.name = name
         self.bw, self.aw, self.address = bw, aw, address
@@ -627,6 +627,25 @@ class SramInst(_InstBase):
         self.inputs = self.outputs = None
         self.depth, self.width, self.cpm, self.read_only = depth, width, cpm, read_only
         self.init = list(init or [])
+        # directed prefix for mode B: every sub-word of every memory word is written with a distinct value (ascending
+        # addresses, page by page), then everything is read back twice (the second pass after rewriting one word in
+        # descending sub-word order)
+        self.script = []
+        if script:
+            per_page = 1 << self.pbits
+            seq = [(w, p) for w in range(self.nwords) for p in [w // per_page]]
+
+            def val(w):
+                return ((w * 37 + 0x11) ^ (w >> 3) * 0x5B) & dmask or 1
+            for (w, pg) in seq:
+                self.script.append((base + w % per_page, 0, 1, val(w), pg))
+            for (w, pg) in seq:
+                self.script.append((base + w % per_page, 1, 0, 0, pg))
+            self.script.append((base, 0, 0, 0, 0))
+            for sub in reversed(range(min(cpm, self.nwords))):
+                self.script.append((base + sub, 0, 1, (0xC3 + 29 * sub) & dmask, 0))
+            for (w, pg) in seq[:2 * cpm]:
+                self.script.append((base + w % per_page, 1, 0, 0, pg))
 
     def _apply(self, letter):
         n = self.netlist
@@ -645,6 +664,8 @@ class SramInst(_InstBase):
         return bool((letter[0] >> self.pbits) == self.address and (letter[1] or letter[2]))
 
     def gen(self, rng, t):
+        if t < len(self.script):
+            return self.script[t]
         base = self.address << self.pbits
         x = rng.random()
         if x < 0.8:
